@@ -139,6 +139,29 @@ def subpiece (x : BitVec w) (low size : Nat) : BitVec size := (x >>> low).setWid
 def popcountCast (x : BitVec w) (v : Nat) : BitVec v := (BitVec.ofNat 64 x.cpop.toNat).setWidth v
 def lzcountCast (x : BitVec w) (v : Nat) : BitVec v := (BitVec.ofNat 64 x.clz.toNat).setWidth v
 
+/-- `signed_add_overflow_checked`: `None` on signed overflow.
+`match (rhs.sign_bit(), self.checked_sle(&result)) { (true,true)|(false,false) => None, _ => Some(result) }` -/
+def saddChecked (x y : BitVec w) : Option (BitVec w) :=
+  let r := x + y
+  match y.msb, x.sle r with
+  | true, true | false, false => none
+  | _, _ => some r
+/-- `signed_sub_overflow_checked` (`self.checked_sge(&result)` is `result ≤ₛ self`) -/
+def ssubChecked (x y : BitVec w) : Option (BitVec w) :=
+  let r := x - y
+  match y.msb, r.sle x with
+  | true, true | false, false => none
+  | _, _ => some r
+/-- `signed_mult_with_overflow_flag` (after the `fix:` commits: `-1 * MIN` is reported as overflow);
+`none` = `Err` for widths above 64 bit -/
+def smulFlag (x y : BitVec w) : Option (BitVec w × Bool) :=
+  if x == 0#w then some (0#w, false)
+  else if w > 64 then none
+  else
+    let r := x * y
+    let special := (x == -1#w) && (y == BitVec.intMin w)
+    some (r, special || (r.sdiv x != y))
+
 end Impl
 
 /-! ## Dynamic-width operations (the API level of `Bitvector::bin_op/un_op/cast/subpiece`) -/
